@@ -4,6 +4,7 @@ from __future__ import annotations
 import logging
 import math
 import os
+import signal
 import warnings
 
 import numpy as np
@@ -26,6 +27,8 @@ KF_SHEAR = "C18:simple_shear_2d:gradient=2*jacobian"
 KF_CELL = "C18:cell_2d:gradient[v,h]<->gradient[v,v]"
 KF_PATH = "C18:get_pathline:cell_2d(X,Z,1):end=(0.6,0,0.6):max_strain=0.5:ValueError"
 BRENTQ_MSG = "f(a) and f(b) must have different signs"
+PATHLINE_TIMEOUT_S = 20      # unchanged tree: <= 0.5 s per pathline
+MAX_EVENT_CALLS = 5000
 
 
 def quiet():
@@ -294,6 +297,12 @@ def run_pathline(spec):
         return res
 
     P.si.solve_ivp = recording
+
+    def on_alarm(signum, frame):
+        raise TimeoutError(f"get_pathline did not return within {PATHLINE_TIMEOUT_S} s")
+
+    old = signal.signal(signal.SIGALRM, on_alarm)
+    signal.alarm(PATHLINE_TIMEOUT_S)
     try:
         with warnings.catch_warnings():
             warnings.simplefilter("ignore")
@@ -302,7 +311,12 @@ def run_pathline(spec):
     except Exception as e:  # noqa: BLE001
         rec["exc"] = (type(e).__name__, str(e)[:200])
     finally:
+        signal.alarm(0)
+        signal.signal(signal.SIGALRM, old)
         P.si.solve_ivp = real
+    if len(rec["calls"]) > MAX_EVENT_CALLS:        # keep the replay through the model bounded
+        rec["calls_truncated"] = len(rec["calls"])
+        rec["calls"] = rec["calls"][:MAX_EVENT_CALLS]
     rec["u"], rec["L"] = u, L
     return rec
 
@@ -516,8 +530,12 @@ def search(chk, rng_seed, extra_specs=()):
             break
     # pathlines
     stats = new_stats()
+    timeouts = 0
     for spec in list(extra_specs) + pathline_specs(rng, "quick")[:24]:
+        if timeouts >= 2 and found:
+            break
         rec = run_pathline(spec)
+        timeouts += int(rec["exc"] is not None and rec["exc"][0] == "TimeoutError")
         fails = check_pathline(chk_dummy, spec, rec, stats)
         if rec["exc"] is not None and not is_known_pathline_failure(spec, rec, fails):
             fails.append(f"get_pathline raised {rec['exc'][0]}: {rec['exc'][1]}")
@@ -615,8 +633,13 @@ def run(chk):
         bad += compare_strain_increment(chk, rng, chk.tier)
         bad += compare_inside(chk, rng, chk.tier)
         specs = [WITNESS_PATH] + pathline_specs(rng, chk.tier)
+        timeouts = 0
         for spec in specs:
+            if timeouts >= 3:      # do not spend 20 s on each of the remaining pathlines
+                stats["aborted_after_timeouts"] = True
+                break
             rec = run_pathline(spec)
+            timeouts += int(rec["exc"] is not None and rec["exc"][0] == "TimeoutError")
             stats["pathlines"] += 1
             fails = check_pathline(chk, spec, rec, stats)
             chk.note_case(("pathline", spec[0], spec[1], spec[2], tuple(spec[3]), spec[6].tobytes(), spec[7], spec[8]), nontrivial=True)
